@@ -530,7 +530,7 @@ func runEscape(c *vlib.Ctx) error {
 	c.SetExhaustive(n > 0)
 	nrand := 80
 	if c.Thorough() {
-		nrand = 3000
+		nrand = 2500
 	}
 	for i := 0; i < nrand; i++ {
 		runScenario(c, &scenario{Op: "random", Pos: -2, Kind: "mixed", Moment: "mixed", Form: "mixed", Rand: c.Seed*1000003 + int64(i) + 1})
